@@ -46,7 +46,8 @@ CLAIMED = {
             "uniform (normalised surface) measure on the sphere - via rotation invariance and a uniqueness theorem for "
             "rotation-invariant probability measures on the sphere proved here with characteristic functions - and b = r u "
             "with independent r, u (noise_vector_law). CMS Theorem 9 (that this noise law gives eps-DP of the minimiser) is "
-            "cited; the KS tests on the real sampler stay as supporting validation.",
+            "cited; the KS tests on the real sampler stay as supporting validation. "
+            "CMS THEOREM 9, REDUCED (DPL/Proofs/LogRegCMS*.lean): the hypotheses on the loss are theorems for the logistic loss the code optimises (logistic_loss_hypotheses: explicit derivatives, |l'| <= 1, 0 < l'' <= 1/4, convexity; logistic_c_is_quarter: the coded function_sensitivity 0.25 IS that bound and is attained), per_record_gradient_bound, noise_vectors_close (|b-b'| <= 2s), noise_density_ratio_le (<= e^eps'), rank_one_jacobian (det(I+uv^T) = 1+v.u over Matrix (Fin d)), cms_budget_exact, and cms_theorem9_reduced: eps-DP given the change-of-variables formula for the minimiser map (explicit hypothesis, CMS 3.3) and Lemma 10's rank-two Jacobian bound - FOR s <= 1. For s > 1 the coded term c*s/alpha is smaller than the c*s^2/alpha the Jacobian ratio costs: cms_privacy_budget_split_cex, call_site_intercept_s_gt_one (with an intercept the augmented norm always exceeds 1) and cms_density_cex (a concrete d = 1 instance where the change-of-variables densities differ by more than e^eps) are proved. The property as stated prescribes exactly the coded rule (eps' = eps - 2 log(1 + c s/alpha)), which the check confirms; the mismatch with what CMS prove is recorded in DESIGN 11.7 as an observation, not as a violation of C17.",
             "Trusted: Lean kernel + Mathlib; sklearn's LinearModelLoss is taken as the clean objective; scipy/joblib.",
             "§6 C17"),
     "C18": ("Lean 4 proof: bisection bracket invariant (any carrier) + spendable/maximal/antitone theorems over R + "
@@ -104,7 +105,8 @@ CLAIMED = {
             "double-precision erfc and the true one are cited/validated. Closed forms are re-read from /repo's AST on every "
             "run and proved equal to the model's (formula anchors). Tied to the code by reading the scale actually used off "
             "the running sampler; the property itself is evaluated at 60 digits (hockey-stick divergence over displacements "
-            "and positions, incl. live-object parameter assignment).",
+            "and positions, incl. live-object parameter assignment). "
+            "Post-processing for metric-DP kernel families (metricDP_postprocess) and the folded-Laplace kernel (foldLapKernel_metricDP, lapFamilyKernel_metricDP) used by the C07/C08 law-level theorems.",
             "Trusted: Lean kernel + Mathlib; Mironov Thm 1 and CKS Thm 7 enter as explicit hypotheses; harness/contlaw.py "
             "(60-digit laws); numeric erf/erfc Float instance (checked against math.erf/erfc on every run). Open findings: "
             "five classes keep a stale calibration after a parameter assignment.", "§6 C02"),
@@ -162,7 +164,8 @@ CLAIMED = {
             "different same-shape datasets with ALL randomise calls forced to identical values must give bit-identical call "
             "schedules, mechanism parameters and releases (12 tools, 7 estimators, partial_fit batches, drifting KMeans "
             "centres). "
-            "STATIC TIE (harness/translate/taint.py, DPL/Model/TaintIR.lean): 24 entry points (tools, histograms, covariance_eig, StandardScaler.partial_fit, GaussianNB internals, _construct_regression_obj) are lowered on every run to a statement IR (assign / declass = mechanism result / probe / branch / loop / ret) with contents and shape of every variable split; `flowsOk` is decided by decide +kernel per entry point and static_taint_sound proves non-interference for every accepted function (two environments that agree outside the data parameters configure the same mechanism calls and return the same values, for every interpretation of the pure operations, loops included). Not followed (dynamic tie only): LinearRegression.fit, KMeans, PCA, forest.",
+            "STATIC TIE (harness/translate/taint.py, DPL/Model/TaintIR.lean): 24 entry points (tools, histograms, covariance_eig, StandardScaler.partial_fit, GaussianNB internals, _construct_regression_obj) are lowered on every run to a statement IR (assign / declass = mechanism result / probe / branch / loop / ret) with contents and shape of every variable split; `flowsOk` is decided by decide +kernel per entry point and static_taint_sound proves non-interference for every accepted function (two environments that agree outside the data parameters configure the same mechanism calls and return the same values, for every interpretation of the pure operations, loops included). Not followed (dynamic tie only): LinearRegression.fit, KMeans, PCA, forest. "
+            "LAW LEVEL (DPL/Proofs/PlanLawNI*.lean): plan_law_noninterference - for ANY kernel family (no DP, no measurability assumption) two datasets on which every call input and probe agree along every path have EQUAL output laws (measures), plan_law_determined_by_inputs, a counter-example showing the hypothesis is needed, instances for mean / histogram / histogramdd / StandardScaler, and static_taint_law_sound (the loop-free fragment of the taint IR under kernels).",
             "Trusted: Lean kernel; 'same shape' includes the group-occupancy pattern for GaussianNB/KMeans/forest (probes); "
             "every data-dependent draw goes through randomise; data-independent randomness fixed by an integer seed.",
             "§6 C06"),
@@ -184,7 +187,8 @@ CLAIMED = {
             "tied by correspondence. Tied to the code by running each tool with forced mechanism outputs against the Lean plan "
             "(classes and counts exact, parameters and inputs 1e-9, release); the property is checked directly by pairing the "
             "invocations of runs on neighbouring datasets and, for quantiles, by the exact density of the constructed mechanism. "
-            "OUTPUT LAWS (DPL/Proofs/ToolsCompose*.lean, on C08's composition layer): mean/sum/var/std/intsum_tool_dp, wrap_axis_tool_dp and the axis variants, count_tool_dp, hist_tool_dp, histogram(dd)_tool_dp: law p D S <= e^eps law p D' S for every measurable S, for any metric-DP kernel family, and hypothesis-free with truncated-Laplace kernels (mean, sum and axis variants) and the geometric kernel derived from C01 (counts, histograms); LaplaceBoundedDomain (var/std) and GeometricTruncated with sensitivity != 1 keep the metric-DP hypothesis.",
+            "OUTPUT LAWS (DPL/Proofs/ToolsCompose*.lean, on C08's composition layer): mean/sum/var/std/intsum_tool_dp, wrap_axis_tool_dp and the axis variants, count_tool_dp, hist_tool_dp, histogram(dd)_tool_dp: law p D S <= e^eps law p D' S for every measurable S, for any metric-DP kernel family, and hypothesis-free with truncated-Laplace kernels (mean, sum and axis variants) and the geometric kernel derived from C01 (counts, histograms); LaplaceBoundedDomain (var/std) and GeometricTruncated with sensitivity != 1 keep the metric-DP hypothesis. "
+            "END TO END (DPL/Proofs/KernelBridge.lean): the kernels ARE the samplers - lapKernel / truncLapKernel / geomKernel equal the push-forward of the uniform measure under the model's Laplace (four uniforms), truncated-Laplace and geometric sampler functions (via C03's and C01's law theorems) - hence mean_tool_end_to_end, sum_tool_end_to_end, count_tool_end_to_end: unif (run D in S) <= e^eps unif (run D' in S) for the explicit function `run` of data and uniform draws (clip, aggregate, sample, truncate), with no intermediate object assumed.",
             "Trusted: Lean kernel + Mathlib; numpy statistics and bin assignment; the reshape of n-d arrays to records x cells "
             "in the harness; sequential/parallel composition cited.", "§6 C07"),
     "C08": ("Lean 4 proof: compositional privacy-loss calculus on release plans, per-estimator model_privloss, split identities "
